@@ -55,15 +55,13 @@ func NewRec(seed int64) *Rec {
 func (r *Rec) Func() kio.VerifHookFunc { return r.Hook }
 
 func (r *Rec) Hook(pt int, id int32, a, b int64, buf []byte) {
-	if s := r.Sched; s != nil {
-		s.arrive(id, pt, a)
-	}
-
 	e := Ev{Pt: pt, ID: id, A: a, B: b, N: len(buf)}
 	if buf != nil && r.Digest[pt] {
 		e.Dig = tr.Dig(buf)
 	}
 
+	// The event is logged when the task ARRIVES at the point (before it may be held at a gate): the log order is
+	// then the order in which the tasks really executed the code that precedes their hooks.
 	r.mu.Lock()
 	r.seq++
 	e.Seq = r.seq
@@ -74,6 +72,10 @@ func (r *Rec) Hook(pt int, id int32, a, b int64, buf []byte) {
 		dur = r.rnd.Intn(200)
 	}
 	r.mu.Unlock()
+
+	if s := r.Sched; s != nil {
+		s.arrive(id, pt, a)
+	}
 
 	if r.Inject != nil {
 		r.Inject(pt, id, a, b, buf)
